@@ -301,10 +301,11 @@ theorem build_files_roundtrip (fes : List (FileE × Bytes)) (hfiles : c.files = 
       (header_paths_nodup hf hs hnd), hout]
 
 /-- **build_valid** (C09 at the built package): it re-parses to itself and satisfies every structural rule of
-`PackageValid` — lead, both headers, signature padding, compressor magic, rpmlib() features, cpio archive -/
+`PackageValid` — lead, both headers, signature-header limits, tag types, signature padding, compressor magic, PAYLOADFLAGS,
+rpmlib() features (all thirteen), cpio archive -/
 theorem build_valid (archive payload : Bytes) {fes : List (FileE × Bytes)}
     (ok : C09.CfgOk (mkCtx c now (hexOf sha256 payload) (hexOf sha256 archive)) fes)
-    (hsha : (shaHex sha256 (writeHeader (C06.hdrOf (mkCtx c now (hexOf sha256 payload) (hexOf sha256 archive))))).length < 268435000)
+    (hsha : (shaHex sha256 (writeHeader (C06.hdrOf (mkCtx c now (hexOf sha256 payload) (hexOf sha256 archive))))).length < 67108000)
     {uid gid : Nat} (hu : uid < 4294967296) (hg : gid < 4294967296)
     (hc : C09.CodecMagic c.compression payload (C09.archiveFor c uid gid fes)) :
     parsePackage (writePackage (build c now (hexOf sha256) archive payload)) = .ok (build c now (hexOf sha256) archive payload)
@@ -362,6 +363,198 @@ theorem built_history_file_entries {S : SigScheme} (archive payload : Bytes) (hl
     (sigFor_no_ima sha256 c now hl archive payload _) hd hdig
 
 end files
+
+/-! ### 6c. archive, payload and file digests of `build`, with the archive written the way the code writes it
+
+Everything above takes `archive` and `payload` as given.  `ShaSink.buildWith` (Model/ShaSink.lean) is `build` with the
+archive part of `prepare_data` spelled out: the cpio writer on top of `Sha256Writer` on top of the compressor (any
+behaviour `comp`, any `finish_compression` = `fin`).  When it returns a package, that package IS `Bld.build` at the cpio
+archive of the builder's files and at the payload the compressor handed back for exactly that input — so every theorem of
+this file applies to it with `archive := C09.archiveFor c uid gid fes`. -/
+section stacked
+open RpmVerif.ShaSink
+
+theorem archiveOfFiles_eq (c : Cfg) (uid gid : Nat) (fes : List (FileE × Bytes)) :
+    C08.archiveOfFiles (usesLargeFiles c) uid gid (fes.map C09.toFileIn) = C09.archiveFor c uid gid fes := rfl
+
+/-- the large-file switch off ⇒ every content fits a `u32` (`entry.size` = `content.len()`, threshold ≤ `u32::MAX`) -/
+theorem contents_fit (c : Cfg) (fes : List (FileE × Bytes)) (hfiles : c.files = fes.map (·.1))
+    (hsz : ∀ p ∈ fes, p.1.size = p.2.length) (hthr : c.largeFileThreshold ≤ 4294967295) (hl : usesLargeFiles c = false) :
+    ∀ f ∈ fes.map C09.toFileIn, f.content.length ≤ 4294967295 := by
+  intro f hf
+  obtain ⟨p, hp, rfl⟩ := List.mem_map.mp hf
+  have h1 : p.1.size ∈ c.files.map (·.size) := by
+    rw [hfiles, List.map_map]; exact List.mem_map.mpr ⟨p, hp, rfl⟩
+  have h2 := PWriter.sum_le_of_mem h1
+  have h3 : ¬ (combinedSize c > c.largeFileThreshold) := by simpa [usesLargeFiles] using hl
+  unfold combinedSize at h3
+  show p.2.length ≤ 4294967295
+  rw [← hsz p hp]; omega
+
+variable (sha256 : Bytes → Bytes) (c : Cfg) (now : Nat)
+
+/-- **build_with_spec** — the package `build` returns, with the archive written through the hashing writer into the
+compressor, is `Bld.build` at
+* `archive` = the cpio archive of the builder's files (standard or large-file form), which is what was HASHED for
+  PAYLOADDIGESTALT and what the compressor was FED, and
+* `payload` = what `finish_compression` returned for the compressor after exactly that input (`comp` fresh: `out = []`).
+Hypotheses: `c.files` are the header-side entries of `fes`, sizes are content lengths (`add_data`; C08
+`file_digest_is_content_digest`), the large-file threshold is at most `u32::MAX` (it is `u32::MAX`, or the hook's value). -/
+theorem build_with_spec (fin : PWriter.Sink → Out Bytes) {uid gid : Nat} (fes : List (FileE × Bytes)) (comp : PWriter.Sink)
+    (hfiles : c.files = fes.map (·.1)) (hsz : ∀ p ∈ fes, p.1.size = p.2.length)
+    (hthr : c.largeFileThreshold ≤ 4294967295) (hfresh : comp.out = []) {p : Package}
+    (h : buildWith fin c now (hexOf sha256) uid gid (fes.map C09.toFileIn) comp = .ok p) :
+    p = build c now (hexOf sha256) (C09.archiveFor c uid gid fes) p.content
+    ∧ ∃ comp', comp'.out = C09.archiveFor c uid gid fes ∧ fin comp' = .ok p.content := by
+  unfold buildWith at h
+  cases hd : prepareDigests fin (hexOf sha256) (usesLargeFiles c) uid gid (fes.map C09.toFileIn) comp with
+  | ok d =>
+    rw [hd] at h
+    simp only [Out.ok.injEq] at h
+    obtain ⟨e1, e2, comp', e3, e4⟩ := C08.prepare_digests_spec fin (hexOf sha256) (usesLargeFiles c) uid gid
+      (fes.map C09.toFileIn) comp (fun hl => contents_fit c fes hfiles hsz hthr hl) d hd
+    rw [archiveOfFiles_eq] at e1 e3
+    rw [hfresh, List.nil_append] at e3
+    subst h
+    refine ⟨?_, comp', e3, e4⟩
+    simp only [build, e1, e2]
+  | err x => rw [hd] at h; cases h
+  | panic x => rw [hd] at h; cases h
+
+/-- **build_with_digests** — the three recorded digests of that package: PAYLOADDIGESTALT is the digest of the cpio
+archive of the files, PAYLOADDIGEST the digest of the payload (the compressor's output for that archive), RPMSIGTAG_SHA256
+the digest of the serialised main header -/
+theorem build_with_digests (fin : PWriter.Sink → Out Bytes) {uid gid : Nat} (fes : List (FileE × Bytes)) (comp : PWriter.Sink)
+    (hfiles : c.files = fes.map (·.1)) (hsz : ∀ p ∈ fes, p.1.size = p.2.length)
+    (hthr : c.largeFileThreshold ≤ 4294967295) (hfresh : comp.out = []) {p : Package}
+    (h : buildWith fin c now (hexOf sha256) uid gid (fes.map C09.toFileIn) comp = .ok p) :
+    getStringArray p.md.header IndexTag.RPMTAG_PAYLOADDIGESTALT = .ok [hexOf sha256 (C09.archiveFor c uid gid fes)]
+    ∧ getStringArray p.md.header IndexTag.RPMTAG_PAYLOADDIGEST = .ok [hexOf sha256 p.content]
+    ∧ getString p.md.signature SigTag.RPMSIGTAG_SHA256 = .ok (hexOf sha256 (writeHeader p.md.header))
+    ∧ ∃ comp', comp'.out = C09.archiveFor c uid gid fes ∧ fin comp' = .ok p.content := by
+  obtain ⟨e, hc⟩ := build_with_spec sha256 c now fin fes comp hfiles hsz hthr hfresh h
+  have hb := C08.build_digests c now (hexOf sha256) (C09.archiveFor c uid gid fes) p.content
+  simp only at hb
+  rw [← e] at hb
+  exact ⟨hb.2.2, hb.2.1, hb.1, hc⟩
+
+/-- `files()` on a package whose payload DECOMPRESSES to the builder's archive (no compressor function needed) -/
+theorem build_files_of_decompressed (fes : List (FileE × Bytes)) (hfiles : c.files = fes.map (·.1)) (hd : DirsOk c)
+    (hf : ∀ p ∈ fes, C09.FileOk p) (hs : ∀ p ∈ fes, DirShape p.1) (hnd : (fes.map (·.1.cpioPath)).Nodup)
+    (hn : fes.length < 4294967295) {uid gid : Nat} (hu : uid < 4294967296) (hg : gid < 4294967296)
+    (decompress : Bytes → Out Bytes) (payload : Bytes) (hdec : decompress payload = .ok (C09.archiveFor c uid gid fes)) :
+    pkgFiles decompress (build c now (hexOf sha256) (C09.archiveFor c uid gid fes) payload)
+      = .ok (fes.zipIdx.map fun x => .ok (x.2, x.1.2)) := by
+  have h := build_files_roundtrip sha256 c now fes hfiles hd hf hs hnd hn hu hg id .ok (fun _ => rfl)
+  rw [build_file_lists sha256 c now _ _ hd] at h ⊢
+  simp only [Cpio.files, id, Out.bind_ok, hdec] at h ⊢
+  exact h
+
+/-- **built_item_digests** — the digest and size clauses of C07 for packages built by the library, end to end: the
+archive written through the hashing writer and ANY compressor whose output decompresses to its input, `files()` on the
+package `build` returns. Every item `(k, content)` it yields — `content` handed out with the metadata of header file `k` —
+satisfies: RPMTAG_FILEDIGESTS[k] is the digest of `content`, and the recorded size of file `k` is `content.len()`.
+`hinv` is what C08 `file_digest_is_content_digest` proves for every sequence of `with_file` calls. -/
+theorem built_item_digests (fin : PWriter.Sink → Out Bytes) (decompress : Bytes → Out Bytes)
+    (hcd : ∀ s q, fin s = .ok q → decompress q = .ok s.out)
+    {uid gid : Nat} (hu : uid < 4294967296) (hg : gid < 4294967296)
+    (fes : List (FileE × Bytes)) (comp : PWriter.Sink) (hfiles : c.files = fes.map (·.1)) (hd : DirsOk c)
+    (hf : ∀ p ∈ fes, C09.FileOk p) (hs : ∀ p ∈ fes, DirShape p.1) (hnd : (fes.map (·.1.cpioPath)).Nodup)
+    (hn : fes.length < 4294967295) (hne : fes ≠ [])
+    (hinv : ∀ p ∈ fes, p.1.shaHex = hexOf sha256 p.2 ∧ p.1.size = p.2.length)
+    (hthr : c.largeFileThreshold ≤ 4294967295) (hfresh : comp.out = []) {p : Package}
+    (h : buildWith fin c now (hexOf sha256) uid gid (fes.map C09.toFileIn) comp = .ok p) :
+    ∃ digests sizes items,
+      getStringArray p.md.header IndexTag.RPMTAG_FILEDIGESTS = .ok digests
+      ∧ fileSizes p.md.header = .ok sizes
+      ∧ pkgFiles decompress p = .ok items
+      ∧ items.length = fes.length
+      ∧ ∀ k content, .ok (k, content) ∈ items →
+          digests[k]? = some (hexOf sha256 content) ∧ sizes[k]? = some content.length := by
+  obtain ⟨e, comp', hc1, hc2⟩ := build_with_spec sha256 c now fin fes comp hfiles (fun p hp => (hinv p hp).2) hthr hfresh h
+  have hdec : decompress p.content = .ok (C09.archiveFor c uid gid fes) := by rw [hcd comp' _ hc2, hc1]
+  have hitems := build_files_of_decompressed sha256 c now fes hfiles hd hf hs hnd hn hu hg decompress p.content hdec
+  rw [← e] at hitems
+  have hnemp : c.files.isEmpty = false := by
+    rw [hfiles]; cases fes with
+    | nil => exact absurd rfl hne
+    | cons a r => rfl
+  let x := mkCtx c now (hexOf sha256 p.content) (hexOf sha256 (C09.archiveFor c uid gid fes))
+  have hhdr : p.md.header = C06.hdrOf x := by rw [e]; rfl
+  obtain ⟨hdig, hsizes⟩ := C08.file_digests_of_contents x (hexOf sha256) fes hfiles hnemp hinv
+  have hfs : fileSizes p.md.header = .ok (fes.map (·.2.length)) := by
+    -- read the size list off the header directly (same computation as in `build_file_lists`)
+    rw [hhdr]
+    have m19 : (IndexTag.RPMTAG_LONGFILESIZES, fun x : Ctx => if x.c.files.isEmpty || !usesLargeFiles x.c then none
+        else some (IndexData.int64 (x.c.files.map (·.size)))) ∈ slots := C06.mem_slot (i := 19) rfl
+    have m20 : (IndexTag.RPMTAG_FILESIZES, fun x : Ctx => if x.c.files.isEmpty || usesLargeFiles x.c then none
+        else some (IndexData.int32 (x.c.files.map (·.size)))) ∈ slots := C06.mem_slot (i := 20) rfl
+    rw [← hsizes]
+    unfold fileSizes
+    cases hl : usesLargeFiles c with
+    | true =>
+      rw [show getU64Array = getWith IndexData.asU64Array from rfl,
+        C06.getter_of_slot IndexData.asU64Array (x := x) m19 (d := .int64 (c.files.map (·.size))) (a := c.files.map (·.size))
+          (by show (if c.files.isEmpty || !usesLargeFiles c then none else _) = _; simp only [hnemp, hl]; rfl) rfl]
+      rfl
+    | false =>
+      rw [show getU64Array = getWith IndexData.asU64Array from rfl,
+        C06.getter_of_empty_slot IndexData.asU64Array (x := x) m19
+          (by show (if c.files.isEmpty || !usesLargeFiles c then none else _) = _; simp only [hnemp, hl]; rfl)]
+      exact C06.getter_of_slot IndexData.asU32Array (x := x) m20 (d := .int32 (c.files.map (·.size))) (a := c.files.map (·.size))
+          (by show (if c.files.isEmpty || usesLargeFiles c then none else _) = _; simp only [hnemp, hl]; rfl) rfl
+  refine ⟨_, _, _, by rw [hhdr]; exact hdig, hfs, hitems, by simp, ?_⟩
+  intro k content hmem
+  obtain ⟨⟨q, j⟩, hq, heq⟩ := List.mem_map.mp hmem
+  simp only [Out.ok.injEq, Prod.mk.injEq] at heq
+  obtain ⟨rfl, rfl⟩ := heq
+  have hj := List.mem_zipIdx hq
+  simp only [Nat.zero_add] at hj
+  obtain ⟨_, hlt, hget⟩ := hj
+  have hlt' : j < fes.length := by simpa using hlt
+  simp only [List.getElem?_map, List.getElem?_eq_getElem hlt', Option.map_some]
+  simp only [Nat.sub_zero] at hget
+  rw [← hget]
+  exact ⟨rfl, rfl⟩
+
+end stacked
+
+/-! ### 6d. the header digest after sign / clear, from ANY start package -/
+section anyStart
+variable {S : SigScheme} (sha256 : Bytes → Bytes)
+
+theorem stateAfter_ne_initial {K : Type} (s : SigState K) (hs : s ≠ .initial) (ops : List (Op K)) :
+    stateAfter s ops ≠ .initial := by
+  induction ops generalizing s with
+  | nil => exact hs
+  | cons o r ih =>
+    show stateAfter (s.after o) r ≠ .initial
+    refine ih _ ?_
+    cases o with
+    | sign k t => intro h; cases h
+    | clear => intro h; cases h
+    | writeParse => exact hs
+
+/-- **history_header_digest_fresh** — start from ANY package with a well-formed lead and main header (whatever
+`Package::parse` returns; its signature header, its recorded digests and its payload may be anything — no
+`PayloadDigestOk`, nothing about RPMSIGTAG_SHA256 of the start): after any history that begins with a sign or a clear
+(then any sequence of sign / clear / write + re-parse) the header digest in the signature header IS the digest of the
+serialised main header, which is still the start package's -/
+theorem history_header_digest_fresh {p0 p : Package} (hl : S.LegacyOk) (wl : LeadWF p0.md.lead) (wh : HeaderWF p0.md.header)
+    (ok : SigRecsOk S sha256 (writeHeader p0.md.header)) (o : Op S.Key) (ho : (SigState.initial).after o ≠ .initial)
+    (os : List (Op S.Key)) (h : run S sha256 (o :: os) p0 = .ok p) :
+    getString p.md.signature SigTag.RPMSIGTAG_SHA256 = .ok (shaHex sha256 (writeHeader p.md.header))
+    ∧ p.md.header = p0.md.header ∧ p.content = p0.content := by
+  rw [C10.run_total_any hl wl wh ok o ho os] at h
+  cases h
+  refine ⟨?_, rfl, rfl⟩
+  have hne : stateAfter (SigState.initial (K := S.Key)) (o :: os) ≠ .initial := stateAfter_ne_initial _ ho os
+  cases hst : stateAfter (SigState.initial (K := S.Key)) (o :: os) with
+  | initial => exact absurd hst hne
+  | cleared => exact C08.clear_header_digest_fresh sha256 p0
+  | signed k t => exact C08.sign_header_digest_fresh S hl sha256 k t p0
+
+end anyStart
 
 /-! ### 7. the end-to-end guarantee in one place -/
 
@@ -561,6 +754,37 @@ example (p : Package) (h : run C10.T C10.tSha256 C10.hist sBuilt2 = .ok p) :
     Acc.getFileEntries p.md.signature p.md.header = .ok (C06.sampleCfg2.files.map (C06.entryOf sCtx2)) :=
   built_history_file_entries C10.tSha256 C06.sampleCfg2 sNow [1, 2, 3] [4, 5] (legacyOk C10.ids) s2_valid s2_recs
     s2_dirs (by decide) C10.hist h
+
+/-! the stacked writers (6c) at a sample whose stored digest is the toy hash of the stored content, through a compressor
+that takes 5 bytes, is interrupted, takes 1 byte and then everything; and 6d at an ill-formed signature header -/
+def sFin (s : PWriter.Sink) : Out Bytes := .ok (sCompress s.out)
+/-- the sample file with the digest `add_data` stores under the toy hash -/
+def dFile : FileE := { C09.sampleFile with shaHex := hexOf C10.tSha256 [1, 2, 3] }
+def dFes : List (FileE × Bytes) := [(dFile, [1, 2, 3])]
+def dCfg : Cfg := { C06.sampleCfg with files := [dFile] }
+def dComp : PWriter.Sink := { script := [.ok 5, .intr, .ok 1] }
+theorem d_prepared : ShaSink.prepareDigests sFin (hexOf C10.tSha256) (usesLargeFiles dCfg) 0 0 (dFes.map C09.toFileIn) dComp
+    = .ok ⟨hexOf C10.tSha256 sArchive, hexOf C10.tSha256 sPayload, sPayload⟩ := by decide +kernel
+theorem d_buildWith : ShaSink.buildWith sFin dCfg sNow (hexOf C10.tSha256) 0 0 (dFes.map C09.toFileIn) dComp
+    = .ok (build dCfg sNow (hexOf C10.tSha256) sArchive sPayload) := by
+  unfold ShaSink.buildWith; rw [d_prepared]; rfl
+example : ∀ p ∈ dFes, p.1.shaHex = hexOf C10.tSha256 p.2 ∧ p.1.size = p.2.length := by decide +kernel
+example := build_with_digests C10.tSha256 dCfg sNow sFin (uid := 0) (gid := 0) dFes dComp rfl (by decide) (by decide) rfl d_buildWith
+/-- every hypothesis of `built_item_digests` is discharged at the sample -/
+example := built_item_digests C10.tSha256 dCfg sNow sFin sDecompress (fun s q h => by cases h; rfl) (uid := 0) (gid := 0)
+  (by decide) (by decide) dFes dComp rfl (by unfold DirsOk; decide)
+  (by intro p hp; simp only [dFes, List.mem_singleton] at hp; subst hp; exact ⟨rfl, by decide, by constructor <;> decide⟩)
+  (by intro p hp; simp only [dFes, List.mem_singleton] at hp; subst hp; constructor <;> decide)
+  (by decide) (by decide) (by decide) (by decide +kernel)
+  (by decide) rfl d_buildWith
+/-- a start package whose signature header is NOT the library's (empty: no RPMSIGTAG_SHA256 at all) and whose payload
+digest is not checked by anything: clear, write + parse, sign with key 2 — the recorded header digest is the true one -/
+def dStart : Package := ⟨⟨leadNew C06.sampleCfg.name, ⟨0, 0, [], []⟩, C06.hdrOf sCtx⟩, [9, 9, 9]⟩
+example (p : Package) (h : run C10.T C10.tSha256 [.clear, .writeParse, .sign (2 : UInt8) 1600000000] dStart = .ok p) :
+    getString p.md.signature SigTag.RPMSIGTAG_SHA256 = .ok (shaHex C10.tSha256 (writeHeader p.md.header)) :=
+  (history_header_digest_fresh (S := C10.T) (p0 := dStart) C10.tSha256 (legacyOk C10.ids) (C06.leadNew_wf _)
+    (C06.hdr_wf s_valid) s_recs .clear (fun e => by cases e) _ h).1
+example : getString dStart.md.signature SigTag.RPMSIGTAG_SHA256 = .err "notfound" := by decide +kernel
 
 end nonvacuity
 
